@@ -7,8 +7,10 @@ obligation): a function whose body is a block of
 followed by a final expression; expressions are built from identifiers, integer / bool literals,
 paths (`Orientation::Collinear`, `T::zero()`, `Zero::zero()`), field access, no-argument method
 calls (`self.min()`, treated like fields), calls of whitelisted functions, tuples, unary `!`, `-`,
-`*` (deref, ignored), `&` (ignored), binary `|| && == != < <= > >= + - * /`, parentheses and
-`if … { … } else if … { … } else { … }`.
+`*` (deref, ignored), `&` (ignored), binary `|| && == != < <= > >= + - * /`, parentheses,
+`if … { … } else if … { … } else { … }`, fixed-length array literals (→ tuples), constant indexing
+`e[0][1]` (resolved by the caller's substitution table, an unresolved index is an error), struct literals
+of whitelisted structs with all fields in declaration order, and `T::from(x)?` with `x : T` (identity).
 
 Numbers become `Rat`, comparisons `decide (…)`, so that the result is a computable Lean term which
 can be compared (`rfl` / `simp`) with the hand-written model.
@@ -20,7 +22,7 @@ class TranslateError(Exception):
     pass
 
 
-TOK = re.compile(r"\s*(?:(\d+\.\d+|\d+)|([A-Za-z_][A-Za-z_0-9]*(?:::[A-Za-z_][A-Za-z_0-9]*)*)|(\|\||&&|==|!=|<=|>=|->|=>|[-+*/!<>=(){},;.&:]))")
+TOK = re.compile(r"\s*(?:(\d+\.\d+|\d+)|([A-Za-z_][A-Za-z_0-9]*(?:::[A-Za-z_][A-Za-z_0-9]*)*)|(\|\||&&|==|!=|<=|>=|->|=>|[-+*/!<>=(){},;.&:\[\]?]))")
 
 
 def tokenize(src):
@@ -43,8 +45,9 @@ def tokenize(src):
 
 
 class Parser:
-    def __init__(self, toks, paths, funcs):
+    def __init__(self, toks, paths, funcs, structs=None):
         self.t, self.i, self.paths, self.funcs = toks, 0, paths, funcs
+        self.structs = structs or {}
 
     def peek(self, k=0):
         return self.t[self.i + k] if self.i + k < len(self.t) else ("eof", "")
@@ -171,6 +174,11 @@ class Parser:
                         e = "(%s %s %s)" % (self.funcs["." + name], e, " ".join(args))
                 else:
                     e = "%s.%s" % (e, name)
+            elif self.at("["):
+                self.eat()
+                n = self.eat("num")[1]
+                self.eat("op", "]")
+                e = "%s⟦%s⟧" % (e, n)          # constant index; resolved by the caller's substitutions
             elif self.at("as"):
                 self.eat(); self.eat("id")
             else:
@@ -189,16 +197,48 @@ class Parser:
             return "(" + ", ".join(items) + ")"
         if tk == ("op", "{"):
             return "(" + self.block() + ")"
+        if tk == ("op", "["):
+            # array literal of fixed length -> tuple
+            self.eat()
+            items = [self.expr()]
+            while self.at(","):
+                self.eat()
+                if self.at("]"):
+                    break
+                items.append(self.expr())
+            self.eat("op", "]")
+            return "(" + ", ".join(items) + ")"
         if tk[0] == "id":
             self.eat()
             name = tk[1]
+            if name in self.structs and self.at("{"):
+                # struct literal `Name { f: e, … }`: fields must come in the declared order
+                self.eat()
+                vals = []
+                for f in self.structs[name][1]:
+                    self.eat("id", f); self.eat("op", ":")
+                    vals.append(self.expr())
+                    if self.at(","):
+                        self.eat()
+                self.eat("op", "}")
+                return "(%s %s)" % (self.structs[name][0], " ".join(vals))
+            if name == "T::from" and self.at("("):
+                # `T::from(x)?` with x : T — the identity conversion (never fails); only accepted with the `?`
+                self.eat()
+                e = self.expr()
+                self.eat("op", ")")
+                self.eat("op", "?")
+                return e
             if self.at("("):
                 self.eat()
                 args = []
                 if not self.at(")"):
                     args.append(self.expr())
                     while self.at(","):
-                        self.eat(); args.append(self.expr())
+                        self.eat()
+                        if self.at(")"):
+                            break                      # trailing comma
+                        args.append(self.expr())
                 self.eat("op", ")")
                 if name in self.paths and not args:
                     return self.paths[name]
@@ -231,9 +271,9 @@ def fn_body(src, header_regex):
     return src[i:j + 1]
 
 
-def translate(src, header_regex, paths, funcs, subst):
+def translate(src, header_regex, paths, funcs, subst, structs=None, resub=()):
     body = fn_body(src, header_regex)
-    p = Parser(tokenize(body), paths, funcs)
+    p = Parser(tokenize(body), paths, funcs, structs)
     term = p.block()
     if term.startswith("(let ") or term.startswith("(if "):
         term = term[1:-1]
@@ -241,6 +281,10 @@ def translate(src, header_regex, paths, funcs, subst):
         raise TranslateError("trailing tokens after function body")
     for a, b in subst:
         term = re.sub(r"(?<![A-Za-z_0-9.])" + re.escape(a) + r"(?![A-Za-z_0-9])", b, term)
+    for a, b in resub:
+        term = re.sub(a, b, term)
+    if "⟦" in term:
+        raise TranslateError("unresolved index expression in %s" % term[:80])
     return term
 
 
